@@ -1,6 +1,7 @@
 package eng
 
 import (
+	"go/constant"
 	"go/token"
 	"io/fs"
 
@@ -125,4 +126,12 @@ func BitTest(v ssa.Value) (operand ssa.Value, mask int64, setWhenTrue bool, ok b
 		return operand, m, cmp.Op == token.EQL, true
 	}
 	return nil, 0, false, false
+}
+
+// IsBoolConst: k is the boolean constant want.
+func IsBoolConst(k *ssa.Const, want bool) bool {
+	if k == nil || k.Value == nil || k.Value.Kind() != constant.Bool {
+		return false
+	}
+	return constant.BoolVal(k.Value) == want
 }
